@@ -1,16 +1,94 @@
 /-
   C10 — work and memory bounded by the metadata size; media never inspected.
 -/
-import MediaSan.Meter
-import MediaSan.Mp4.Sanitize
+import MediaSan.Lemmas.Meter
+import MediaSan.Lemmas.Account
+import MediaSan.Lemmas.NonInterf
+import MediaSan.Lemmas.RawSim
 namespace MediaSan.Props.C10
 open MediaSan
 
-/-- the size limit is compared before the payload is read or allocated: a declared payload above the limit makes
-    `read_data` fail with InvalidInput without any I/O -/
+/-- The size limit is compared before the payload is read or allocated: a declared payload above the limit makes
+    `read_data` fail with InvalidInput without any I/O. -/
 theorem C10_limit_before_alloc (h : Mp4.BoxHeader) (n L : Nat) (hd : h.dataSize = .ok (some n)) (hn : L < n) :
     Mp4.readData h L = .fail .invalidInput := by
   have : ¬ n ≤ L := by omega
   simp [Mp4.readData, Mp4.boxDataSize, hd, bind, Prog.bind, this]
+
+/-- Every read request the MP4 sanitizer can issue, on any input, is for at most max(max_metadata_size, 1024) bytes
+    (header pieces of 4..16 bytes, the ftyp payload ≤ 1024, a moov payload ≤ the limit): no buffer larger than that
+    is ever requested from the input. -/
+theorem C10_request_bound (cfg : Mp4.Config) (fuel : Nat) :
+    MaxRead (max cfg.maxMetadataSize 1024) (Mp4.sanitizeP cfg fuel) :=
+  Mp4.sanitizeP_maxRead cfg fuel
+
+/-- Media is never inspected: after the header of any box that is neither `ftyp` nor `moov` (mdat, free, skip, meta,
+    meco, unknown types), the iteration contains no read of any kind — only position / length queries and a skip. -/
+theorem C10_media_not_read (cfg : Mp4.Config) (st : Mp4.ScanState) (startPos : Nat) (header : Mp4.BoxHeader)
+    (hf : header.ty ≠ Mp4.FTYP) (hm : header.ty ≠ Mp4.MOOV) : ReadFree (Mp4.scanBody cfg st startPos header) :=
+  Mp4.scanBody_readFree cfg st startPos header hf hm
+
+/-- Non-interference: the outcome of the sanitizer (of any program) on the ideal cursor depends only on the stream
+    length and on the bytes in the ranges it reads.  Two inputs of equal length that agree on those ranges — in
+    particular two inputs that differ only in media payload bytes, which `C10_media_not_read` shows are in no read
+    range — get the same result. -/
+theorem C10_noninterference (s s' : Stream) (kind : SkipKind) (cfg : Mp4.Config) (hlen : s'.len = s.len)
+    (h : ∀ a n, (a, n) ∈ (Mp4.sanitizeP cfg (Mp4.fuelFor s)).readSet s kind 0 → s'.read a n = s.read a n) :
+    Mp4.sanitize s' kind cfg = Mp4.sanitize s kind cfg := by
+  have hf : Mp4.fuelFor s' = Mp4.fuelFor s := by simp only [Mp4.fuelFor, hlen]
+  simp only [Mp4.sanitize, Mp4.sanitizeWith, hf]
+  rw [run_noninterference s s' kind hlen _ 0 h]
+
+/-- Accounting through BufReader(cap), for every underlying reader whose `read` returns at most what it is asked
+    for, every program and every input: at every point between two operations,
+      bytes delivered by the underlying reader ≤ (bytes returned by completed read_exact / read_to_end calls)
+                                                + cap × (completed skips) + (bytes currently buffered ≤ cap).
+    With `C10_media_not_read` the first term is headers + ftyp + moov payloads; the rest is the look-ahead. -/
+theorem C10_physical_reads {ρ E α} (raw : RawOps ρ) (hrb : ReadBounded raw) (cap : Nat) (p : Prog E α) (r : ρ) :
+    p.everBad (ghostOps cap raw)
+      (fun s => !(decide (s.1.inner.2 ≤ s.2 + s.1.buf.length) && decide (s.1.buf.length ≤ cap)))
+      (⟨(r, 0), []⟩, 0) = false := by
+  apply everBad_of_inv (ghostOps cap raw) (AccInv cap)
+  · intro s hs
+    simp only [AccInv] at hs
+    simp [hs.1, hs.2]
+  · intro s b s' hs h; exact (ghostOps_inv raw hrb cap s hs).1 b s' h
+  · intro s b s' hs h; exact (ghostOps_inv raw hrb cap s hs).2.1 b s' h
+  · intro s b s' hs h; exact (ghostOps_inv raw hrb cap s hs).2.2.1 b s' h
+  · intro s n b s' hs h; exact (ghostOps_inv raw hrb cap s hs).2.2.2.1 n b s' h
+  · intro s n s' hs h; exact (ghostOps_inv raw hrb cap s hs).2.2.2.2.1 n s' h
+  · intro s n b s' hs h; exact (ghostOps_inv raw hrb cap s hs).2.2.2.2.2 n b s' h
+  · exact ⟨by simp, by simp⟩
+
+/-- the ideal input satisfies the hypothesis of `C10_physical_reads` -/
+theorem C10_ideal_read_bounded (s : Stream) (kind : SkipKind) (chunk : Nat) : ReadBounded (idealRaw s kind chunk) := by
+  intro r n b r' h
+  simp only [idealRaw] at h
+  cases h
+  simp only [Stream.read, List.length_map, List.length_range, chunkLimit]
+  omega
+
+/-- The returned metadata is the two re-encoded boxes plus a padding that is never larger than they are: its planned
+    length is at most twice the metadata length (`C01_plan_shift` has the other facts about `planRewrite`). -/
+theorem C10_pad_bounded (ml off pad : Nat) (disp : Option Int) (h : Mp4.planRewrite ml off = .ok (pad, disp)) :
+    ml + pad ≤ 2 * ml := by
+  unfold Mp4.planRewrite at h
+  dsimp only at h
+  split at h
+  · split at h
+    · cases h; omega
+    · split at h
+      · rename_i hp; cases h; omega
+      · split at h
+        · cases h; omega
+        · cases h
+  · split at h
+    · cases h; omega
+    · cases h
+
+-- Non-vacuity
+example : Mp4.planRewrite 100 200 = .ok (100, none) ∧ Mp4.planRewrite 100 201 = .ok (0, some (-101)) := by decide
+example : ReadFree (Mp4.scanBody {} {} 0 ⟨Mp4.MDAT, .size 4000000000⟩) :=
+  C10_media_not_read {} {} 0 _ (by decide) (by decide)
 
 end MediaSan.Props.C10
